@@ -9,7 +9,7 @@ from ..terms import A, C, F, V, call, conj, show_program, show_term, term_vars, 
 
 ID = 'C07'
 LEVEL = 'model_checking'
-RULE = ('(L) large stores: 17 sizes N up to 130 of cfg(k_i,v_i) facts with one catch-all fact cfg(_,default) at the front / middle / end, queried with known, unknown, structured and unbound first arguments and retracted from, compared with the list model. (m) matching = unification: for every ordered pair (t1,t2) of the term universe of C02 (depth <=1 incl. zero-argument compounds, list-shaped terms, odd Python constants) the store {m(t1)} is asked m(t2) and retract(m(t2)): one answer with the bindings of the unifier iff the terms unify. (h) every history (operation sequence) of depth d over the event alphabet {asserta/assertz of p(a) p(b) p(X) '
+RULE = ('(opnamed: a 9-event alphabet over predicates named like operators - facts of the name :- with second argument true, of the name comma - next to foo/1) ' '(L) large stores: 17 sizes N up to 130 of cfg(k_i,v_i) facts with one catch-all fact cfg(_,default) at the front / middle / end, queried with known, unknown, structured and unbound first arguments and retracted from, compared with the list model. (m) matching = unification: for every ordered pair (t1,t2) of the term universe of C02 (depth <=1 incl. zero-argument compounds, list-shaped terms, odd Python constants) the store {m(t1)} is asked m(t2) and retract(m(t2)): one answer with the bindings of the unifier iff the terms unify. (h) every history (operation sequence) of depth d over the event alphabet {asserta/assertz of p(a) p(b) p(X) '
         'p(f(Y)) q(a,b) flag; retract of p(a) p(X) p(f(X)) q(X,Y) flag nosuch(X), retract(p(X)) run to exhaustion / '
         'abandoned after the 1st / after the 2nd answer; retractall of p(a) p(_) flag nosuch(_); facts of a predicate named like an API function (variable/1) and a zero-argument fact held twice and retracted once; patterns with a repeated variable q(X,X) and partially bound q(X,a) over q/2 facts; clear}, from 4 initial '
         'stores, in 3 dress-ups (Python API - for histories with a clear also with the Atom objects of the caller created once and held across the clear, and (full alphabet) with the query objects of the whole history constructed first and evaluated later, which must change nothing; compiled clauses; compiled clauses receiving the goal in a variable bound '
@@ -40,7 +40,14 @@ EVENTS = [
     # enumerated and removed like any others), and a zero-argument fact held twice
     ('assert', 'z', F('variable', a)), ('assert', 'a', F('variable', b)), ('retract', F('variable', X), 1),
     ('retractall', F('variable', ANON)), ('retract', A('flag'), 1), ('assert', 'a', A('flag')),
+    # predicates NAMED like the operators of the language (':-'/2 whose second argument is true is how other
+    # systems spell a fact; ','/2): names like any others, with lists of their own - next to foo/1
+    ('assert', 'z', F(':-', F('foo', b), A('true'))), ('assert', 'a', F(':-', F('foo', a), A('true'))), ('retract', F(':-', X, A('true')), 1),
+    ('retractall', F(':-', F('foo', a), A('true'))), ('assert', 'z', F('foo', b)), ('retract', F(':-', X, Y), 'all'),
+    ('assert', 'z', F(',', a, b)), ('retract', F(',', X, Y), 1),
 ]
+OPNAMED = [33, 34, 35, 36, 37, 38, 39, 40, 20]
+KEYS_OPNAMED = [(':-', 2), ('foo', 1), (',', 2)]
 RESERVED = [27, 28, 29, 30, 31, 32, 6, 14, 20]
 CORE = [0, 1, 2, 3, 8, 9, 10, 17, 6, 14]
 CORE8 = [0, 2, 3, 8, 9, 10, 11, 16]
@@ -442,9 +449,9 @@ def _jm(t):
 def plan(tier):
     sh = []
     if tier == 'quick':
-        specs = [('full', 3, DRESS), ('core', 4, DRESS), ('qfocus', 4, DRESS), ('reserved', 4, DRESS)]
+        specs = [('full', 3, DRESS), ('core', 4, DRESS), ('qfocus', 4, DRESS), ('reserved', 4, DRESS), ('opnamed', 4, DRESS)]
     else:
-        specs = [('full', 4, DRESS), ('core', 5, DRESS), ('core8', 6, ['api']), ('qfocus', 5, DRESS), ('all', 3, DRESS), ('reserved', 5, DRESS)]
+        specs = [('full', 4, DRESS), ('core', 5, DRESS), ('core8', 6, ['api']), ('qfocus', 5, DRESS), ('all', 3, DRESS), ('reserved', 5, DRESS), ('opnamed', 5, DRESS)]
     for alpha, depth, dresses in specs:
         if alpha in ('full', 'core'):
             dresses = list(dresses) + [HELD]
@@ -453,6 +460,8 @@ def plan(tier):
         for dress in dresses:
             for ii in range(len(INITIAL)):
                 if alpha == 'core8' and ii >= 2:
+                    continue
+                if alpha == 'opnamed' and ii >= 2:
                     continue
                 if alpha in ('full', 'core') and ii == 3:
                     continue
@@ -469,8 +478,8 @@ def plan(tier):
 
 
 def alphabet(alpha):
-    return {'full': list(range(21)), 'core': CORE, 'core8': CORE8, 'qfocus': [5, 13, 20, 21, 22, 23, 24, 25, 26], 'reserved': RESERVED,
-            'all': list(range(len(EVENTS)))}[alpha]
+    return {'full': list(range(21)), 'core': CORE, 'core8': CORE8, 'qfocus': [5, 13, 20, 21, 22, 23, 24, 25, 26], 'reserved': RESERVED, 'opnamed': OPNAMED,
+            'all': list(range(33))}[alpha]
 
 
 def run_shard(spec):
@@ -483,7 +492,7 @@ def run_shard(spec):
         run_large(spec, acc)
         return acc
     alpha, depth, dress, ii, k, n = spec
-    _keys['now'] = KEYS_RESERVED if alpha == 'reserved' else KEYS
+    _keys['now'] = KEYS_RESERVED if alpha == 'reserved' else KEYS_OPNAMED if alpha == 'opnamed' else KEYS
     acc = Acc()
     pytext = None
     if dress not in ('api', HELD, DEFERRED):
@@ -533,7 +542,7 @@ def replay(case):
         env = unify_nsto(rename_apart(t1), t2, {})
         n = len(list(yp.query('m', [impl.to_engine(yp, t2, {})])))
         return [] if n == (0 if env is None else 1) else [('match:query-differs-from-unification', 'fact m(%s), query m(%s): %d answers' % (pp(t1), pp(t2), n))]
-    _keys['now'] = KEYS_RESERVED if case.get('alpha') == 'reserved' else KEYS
+    _keys['now'] = KEYS_RESERVED if case.get('alpha') == 'reserved' else KEYS_OPNAMED if case.get('alpha') == 'opnamed' else KEYS
     dress = case['dress']
     pytext = None if dress in ('api', HELD, DEFERRED) else impl.compile_text(show_program(script_for(dress)))
     r = run_history(dress, INITIAL[case['init']], case['hist'], pytext)
